@@ -254,20 +254,24 @@ func (w *World) setupPriorKernel() {
 		}
 		desc = append(desc, fmt.Sprintf("foreign(%d)", n))
 		if w.F.Lookalikes {
-			// foreign objects whose names merely resemble galaxy's (no galaxy comment, not galaxy's scheme)
+			// foreign objects whose names merely resemble galaxy's. Galaxy declares the name prefix "GLX" as its own
+			// (policy.go NamePrefix), so a name that starts with GLX is in galaxy's namespace whatever follows; the
+			// look-alikes therefore only resemble it (other case, one letter off, the prefix not at the start). A first
+			// version generated GLX-prefixed "foreign" names and reported their clean-up: that demanded more than the
+			// property states and was withdrawn.
 			if c.Prob(1, 2) {
-				k.MustRestore("*filter\n:GLX-FOO - [0:0]\n-A GLX-FOO -s 10.7.0.0/16 -j ACCEPT\nCOMMIT\n")
+				k.MustRestore("*filter\n:GL-PLCY-FOO - [0:0]\n-A GL-PLCY-FOO -s 10.7.0.0/16 -j ACCEPT\nCOMMIT\n")
 			}
 			if c.Prob(1, 2) {
-				k.MustRestore("*filter\n:GLX-PLCYBACKUP - [0:0]\n-A GLX-PLCYBACKUP -p tcp -m tcp --dport 22 -j ACCEPT\nCOMMIT\n")
+				k.MustRestore("*filter\n:XGLX-PLCYBACKUP - [0:0]\n-A XGLX-PLCYBACKUP -p tcp -m tcp --dport 22 -j ACCEPT\nCOMMIT\n")
 			}
 			if c.Prob(1, 2) {
-				k.MustIPSet("create", "GLXFW", "hash:ip")
-				k.MustIPSet("add", "GLXFW", "10.7.0.1")
+				k.MustIPSet("create", "glx-fw", "hash:ip")
+				k.MustIPSet("add", "glx-fw", "10.7.0.1")
 			}
 			if c.Prob(1, 2) {
-				k.MustIPSet("create", "GLX-backup", "hash:net")
-				k.MustIPSet("add", "GLX-backup", "10.7.0.0/16")
+				k.MustIPSet("create", "MY-GLX-backup", "hash:net")
+				k.MustIPSet("add", "MY-GLX-backup", "10.7.0.0/16")
 			}
 			desc = append(desc, "lookalikes")
 		}
